@@ -53,10 +53,29 @@ def run_goal(arg):
             units = cast.all_units()
             V = e2.Verifier(units, db, budget=budget)
             k = goal['key']
+            fallback = None
             if k.startswith('lemma:'): out['info'] = V.verify_lemma(k[6:])
             elif goal['engine'] == 'e2rel': out['info'] = V.verify_relational(k, goal['args'])
-            else: out['info'] = V.verify_function(k)
+            else:
+                try:
+                    out['info'] = V.verify_function(k)
+                except e2.E2Error as ex0:
+                    # the contract's loop clauses do not fit the code (a loop was added, removed or renamed): this goal cannot be
+                    # decided (exit 2) -- unless a bounded run of the new code against the function-level clauses of the same contract
+                    # already exhibits a counterexample, which is then a genuine violation
+                    msg0 = str(ex0)
+                    if not re.search(r'has no invariant|contract mentions loop|does not resolve', msg0): raise
+                    V = e2.Verifier(units, db, budget=budget); V.fallback_unroll = 3
+                    try:
+                        V.verify_function(k)
+                        fallback = msg0
+                    except Exception:
+                        raise ex0
             obs = V.discharge_all()
+            if fallback is not None:
+                obs = [ob for ob in obs if ob.result['verdict'] == 'failed' and not ob.kind.startswith('loop')]
+                for ob in obs: ob.result['backend'] += ' [bounded fallback: loops unrolled 3 times after "%s"]' % fallback[:120]
+                out['error'] = 'E2Error: ' + fallback
             out['vacuous'] = V.check_vacuity()
             out['static_failures'] = list(getattr(V, 'static_failures', []))
             out['bounded'] = list(getattr(V, 'bounded', []))
